@@ -23,7 +23,7 @@ import (
 
 func init() {
 	Register(&Rule{ID: "R-PAR-8", Props: []string{"C13", "C12"}, Floor: 2,
-		Doc: "library objects in package-level variables: every package-level variable of csvq whose type comes from another module and is not documented as safe for concurrent use (table: sync.*, sync/atomic.*, regexp.Regexp, strings.Replacer, time.Location, time.Time, os.File) is used — directly or through an accessor function returning it — only under a mutex or in code that no concurrent region (go statement / task-manager callback) reaches without taking one (genuine defect repaired: RAND() shared an unlocked math/rand.Rand between the workers)",
+		Doc:      "library objects in package-level variables: every package-level variable of csvq whose type comes from another module and is not documented as safe for concurrent use (table: sync.*, sync/atomic.*, regexp.Regexp, strings.Replacer, time.Location, time.Time, os.File) is used — directly or through an accessor function returning it — only under a mutex or in code that no concurrent region (go statement / task-manager callback) reaches without taking one (genuine defect repaired: RAND() shared an unlocked math/rand.Rand between the workers)",
 		Controls: []string{"ctlSharedRand"},
 		Run:      rulePar8})
 }
@@ -354,7 +354,7 @@ func globalName(g *ssa.Global) string {
 
 func init() {
 	Register(&Rule{ID: "R-PAR-9", Props: []string{"C13", "C12"}, Floor: 1,
-		Doc: "objects handed down through a context value are read-only for the workers: for every struct type whose pointer is put into context.WithValue or taken out of ctx.Value by a type assertion (today: the USING values of a prepared statement), no function that runs concurrently stores into a field — or into an element reached through a field — of such an object without a lock, unless the object was allocated in that very function (the context is shared by all worker goroutines of a statement)",
+		Doc:      "objects handed down through a context value are read-only for the workers: for every struct type whose pointer is put into context.WithValue or taken out of ctx.Value by a type assertion (today: the USING values of a prepared statement), no function that runs concurrently stores into a field — or into an element reached through a field — of such an object without a lock, unless the object was allocated in that very function (the context is shared by all worker goroutines of a statement)",
 		Controls: []string{"ctlCtxMemo"},
 		Run:      rulePar9})
 }
@@ -480,7 +480,7 @@ func rulePar9(c *Ctx) {
 
 func init() {
 	Register(&Rule{ID: "R-PAR-10", Props: []string{"C12"}, Floor: 1,
-		Doc: "no piecewise unstable sort: inside a concurrent region (go operand / task-manager callback and its nested closures) sort.Sort / sort.Slice is never applied to a value built from a variable the region shares with its siblings (a captured slice, view or wrapper indexed by the task) — sort.Sort is unstable, so sorting task-sized pieces of one collection and merging them orders tied rows differently for every --cpu; the whole-view sort of ORDER BY (sort.Sort(view) outside any region) is the reference instance",
+		Doc:      "no piecewise unstable sort: inside a concurrent region (go operand / task-manager callback and its nested closures) sort.Sort / sort.Slice is never applied to a value built from a variable the region shares with its siblings (a captured slice, view or wrapper indexed by the task) — sort.Sort is unstable, so sorting task-sized pieces of one collection and merging them orders tied rows differently for every --cpu; the whole-view sort of ORDER BY (sort.Sort(view) outside any region) is the reference instance",
 		Controls: []string{"CtlPiecewiseSort"},
 		Run:      rulePar10})
 }
